@@ -38,6 +38,7 @@ def cases(tier, seed):
     fixed = ["MDVFMKGLSKAKEGVVAAAEKTKQGVAEAAGKTKEGVLYVGSKTKEGVVHGVATVAEKTKEQVTNVGGAVVTGVTAVAQKTVEGAGSIAAATGFVKKDQLGKNEEGAPQEGILEDMPVDPDNEAYEMPSEEGYQDYEPEA",
              "PPPPPEEEEEGGGGGKKKKKWWWWW", "W", "P", "GSGSGS", "EKEKEKEKPPPPGGGGWWHH", "EQQQGNQDR", "KQQQQQQQE", "GSGSGSGSGSGSGSGSGSGSGSKE",
              "QQQQQQQQQQQQQQQQQQQQQQQPQQQQQQQQQQQQQQQQQQQQQQQQQQQQQQQQQQQQQQQQQQQQQQQQQQQQQQQQQD", "EEQGGQQE", "PGGGGGGP", "DGSGSGSGR", "KKGGGGGK"]
+    yield {"sweep": 330 if tier == "quick" else 1200, "s": "", "o": 5}
     for i in range(NSEQ[tier]):
         s = fixed[i] if i < len(fixed) else gen.rand_seq(rng, hi=HI[tier] if i % 3 == 0 else 40)
         if i >= len(fixed) and i % 6 == 0:
@@ -116,7 +117,35 @@ def ref_agree(rep, got, pat):
     return False
 
 
+def judge_sweep(case, rep, S):
+    """Many distinct compositions in ONE process, then the identities on the early sequences again."""
+    rng = gen.sub_rng(0, ID, "sweep")
+    comps = gen.distinct_compositions(rng, case["sweep"], 8, 24)
+    seqs = []
+    for (p, n, z) in comps:
+        pat = [1] * p + [-1] * n + [0] * z
+        rng.shuffle(pat)
+        s = gen.spell(rng, pat)
+        seqs.append(s)
+        S["SP"](s).get_kappa()
+        rep.cnt("sweep_compositions")
+    for s in seqs[:100]:
+        o = S["SP"](s)
+        k, kx = o.get_kappa(), o.get_kappa_X(["E", "D"], ["K", "R"])
+        om, omx = o.get_Omega(), o.get_kappa_X(["P", "E", "D", "K", "R"])
+        rep.cnt("kappa_identity")
+        rep.cnt("omega_identity")
+        if not (agree(rep, k, kx) and ref_agree(rep, k, M.pattern(s))):
+            rep.viol("kappa_identity", "after %d other compositions in this process: kappa=%r, kappa_X([E,D],[K,R])=%r for %s" % (len(comps), k, kx, s))
+            return
+        if not agree(rep, om, omx):
+            rep.viol("omega_identity", "after %d other compositions in this process: Omega=%r, kappa_X(PEDKR)=%r for %s" % (len(comps), om, omx, s))
+            return
+
+
 def judge(case, rep, S):
+    if case.get("sweep"):
+        return judge_sweep(case, rep, S)
     seq = case["s"]
     rng = gen.sub_rng(case["o"], ID)
     SP = S["SP"]
